@@ -80,6 +80,14 @@ class CallGraph:
                 if isinstance(n, ast.Call):
                     cs = self._resolve_call(f, n)
                     self.sites[f.qualname].append(cs)
+                    # a local function handed to a callee (sorted(key=f), groupby(xs, f), map(f, xs)) is called on f's behalf
+                    nested = getattr(f, "nested", None) or {}
+                    for a in list(n.args) + [k.value for k in n.keywords]:
+                        if isinstance(a, ast.Name) and a.id in nested:
+                            extra = CallSite(caller=f, node=n)
+                            extra.targets = self._with_wrappers([nested[a.id]])
+                            extra.via = "callable-argument"
+                            self.sites[f.qualname].append(extra)
                 elif isinstance(n, ast.Attribute) and isinstance(n.ctx, ast.Load):
                     cs = self._resolve_property(f, n)
                     if cs is not None:
